@@ -17,7 +17,7 @@ def hx_leg(fam, profile="chk", features=(), props=None, **kw):
 def plan(pid, tier):
     q = tier == "quick"
     if pid == "C01":
-        return [hx_leg("SA", props=["C01"]), hx_leg("SB", props=["C01"]), hx_leg("SD", props=["C01"]), hx_leg("SP", props=["C01"])]
+        return [hx_leg("SA", props=["C01"]), hx_leg("SB", props=["C01"]), hx_leg("SD", props=["C01"]), hx_leg("SP", props=["C01"]), hx_leg("SC", features=("wide",), props=["C01"])]
     if pid == "C02":
         return [hx_leg("SA", props=["C02"], **(dict(L=3, D=8) if q else dict(L=4, D=10))), hx_leg("SB", props=["C02"], **(dict(D=6) if q else dict(D=8))), hx_leg("SC", features=("wide",), props=["C02"]), hx_leg("SP", props=["C02"])]
     if pid == "C03":
@@ -33,20 +33,20 @@ def plan(pid, tier):
         return [hx_leg("SA", props=["C04"], drop_world=True), hx_leg("SD", props=["C04"], drop_world=True), hx_leg("SC", features=("wide",), props=["C04"], drop_world=True), hx_leg("SP", props=["C04"], drop_world=True)] + \
                ([] if q else [hx_leg("SAN", profile="rel", props=["C04", "C02"], san="asan", drop_world=True), hx_leg("SAN", props=["C04", "C02", "C01"], san="miri", miri_depth=2, drop_world=True)])
     if pid == "C06":
-        return [hx_leg("SA", props=["C06"]), hx_leg("SB", props=["C06"]), hx_leg("SP", props=["C06"])]
+        return [hx_leg("SA", props=["C06"]), hx_leg("SB", props=["C06"]), hx_leg("SP", props=["C06"]), hx_leg("SC", features=("wide",), props=["C06"])]
     if pid == "C07":
-        return [hx_leg("SA", props=["C07"]), hx_leg("SB", props=["C07"]), hx_leg("SP", props=["C07"])]
+        return [hx_leg("SA", props=["C07"]), hx_leg("SB", props=["C07"]), hx_leg("SP", props=["C07"]), hx_leg("SC", features=("wide",), props=["C07"])]
     if pid == "C08":
-        return [hx_leg("SA", props=["C08"]), hx_leg("SB", props=["C08"]), hx_leg("SD", props=["C08"]), hx_leg("SE", props=["C08"])] + \
+        return [hx_leg("SA", props=["C08"]), hx_leg("SB", props=["C08"]), hx_leg("SD", props=["C08"]), hx_leg("SE", props=["C08"]), hx_leg("SP", props=["C08"])] + \
                ([] if q else [hx_leg("CYCLE", profile="rel"), hx_leg("LIMIT", depth=2)])
     if pid == "C09":
-        return [hx_leg("SA", props=["C09"], **(dict(L=3, D=8) if q else dict(L=5, D=10))), hx_leg("SB", props=["C09"], **(dict(D=6) if q else dict(D=8))), hx_leg("SP", props=["C09"])]
+        return [hx_leg("SA", props=["C09"], **(dict(L=3, D=8) if q else dict(L=5, D=10))), hx_leg("SB", props=["C09"], **(dict(D=6) if q else dict(D=8))), hx_leg("SP", props=["C09"]), hx_leg("SC", features=("wide",), props=["C09"])]
     if pid == "C10":
         # the same fault / overflow histories on the events build: the logs are part of "every other property still holds"
         return [hx_leg("SF", props=["C10", "C01", "C02", "C04", "C06", "C09", "C12"]), hx_leg("SE", props=["C10", "C01", "C04", "C12"]),
                 hx_leg("SF", features=("events",), props=["C10", "C17", "C01", "C04", "C12"]), hx_leg("SE", features=("events",), props=["C10", "C17", "C01", "C04", "C12"])] + ([] if q else [hx_leg("LIMIT", depth=2), hx_leg("SAN", profile="rel", props=["C10", "C01", "C02", "C04"], san="asan"), hx_leg("SF", props=["C10", "C01", "C04"], san="miri", miri_depth=2)])
     if pid == "C12":
-        return [hx_leg("SA", props=["C12"]), hx_leg("SB", props=["C12"]), hx_leg("LIMIT", depth=2 if q else 4)]
+        return [hx_leg("SA", props=["C12"]), hx_leg("SB", props=["C12"]), hx_leg("SP", props=["C12"]), hx_leg("LIMIT", depth=2 if q else 4)]
     if pid == "C13":
         return [hx_leg("SD", props=["C13", "C01", "C02", "C06", "C09", "C12"], drop_world=True, **(dict(L=3, D=7) if q else dict(L=3, D=9))),
                 hx_leg("SP", props=["C13", "C01", "C02", "C06", "C09", "C12"], drop_world=True, max_clones=1, key_kinds=[0, 3], vias=["World"])] + \
